@@ -30,6 +30,12 @@ func Transact(db *gorm.DB, fnList ...GormProcFn) (err error) {
 		return
 	}
 
+	// a handle that already carries an error still begins a transaction in gorm, and the handle returned by
+	// Begin reports the old error: nothing would ever finish that transaction, so begin nothing
+	if err = db.Error; err != nil {
+		return
+	}
+
 	var txn = db.Begin()
 	if err = txn.Error; err != nil {
 		return
